@@ -718,6 +718,7 @@ def canonical_statements(trees: list[ast.Module]) -> dict[str, int]:
 
     * ``x = x <op> e``  ->  ``x <op>= e``       (x a plain name; + - *)
     * ``x = a if c else b``  ->  ``if c: x = a`` / ``else: x = b``
+      (also ``return a if c else b``)
     * ``xs = []`` directly followed by ``for t in it: [if c:] xs.append(e)``
       (nothing else in the loop, ``xs`` not read by it / c / e)
       ->  ``xs = [e for t in it if c]``
@@ -769,6 +770,18 @@ def canonical_statements(trees: list[ast.Module]) -> dict[str, int]:
                                     value=v.orelse)
                     new_if = ast.If(test=v.test, body=[t1], orelse=[t2])
                     for x in (new_if, t1, t2):
+                        ast.copy_location(x, st)
+                    ast.fix_missing_locations(new_if)
+                    blk[i] = new_if
+                    n["ifexp"] += 1
+                # --- return a if c else b
+                elif isinstance(st, ast.Return) and isinstance(
+                        st.value, ast.IfExp):
+                    v = st.value
+                    r1 = ast.Return(value=v.body)
+                    r2 = ast.Return(value=v.orelse)
+                    new_if = ast.If(test=v.test, body=[r1], orelse=[r2])
+                    for x in (new_if, r1, r2):
                         ast.copy_location(x, st)
                     ast.fix_missing_locations(new_if)
                     blk[i] = new_if
